@@ -363,6 +363,68 @@ def frame_obligations(R):
          replay=lambda o: (bool(bad), '; '.join(bad[:3]) or 'no write attempted'))
 
 
+def int_parameter_cases():
+    """grids whose parameters are whole numbers, written as Python / numpy ints (what aurel.parameters() yields for a .par entry
+    without a decimal point) -- compared with the same grid written with floats"""
+    import numpy as np
+    import aurel
+    bad = []
+    n = 0
+    combos = [dict(Nx=6, Ny=7, Nz=8, xmin=-3, ymin=-3, zmin=-4, dx=1, dy=1, dz=1),
+              dict(Nx=9, Ny=9, Nz=9, xmin=-8, ymin=-8, zmin=-8, dx=2, dy=2, dz=2),
+              dict(Nx=8, Ny=6, Nz=10, xmin=1, ymin=-5, zmin=0, dx=1, dy=2, dz=3),
+              dict(Nx=7, Ny=7, Nz=7, xmin=-3, ymin=-3, zmin=-1.5, dx=1, dy=1, dz=0.5),       # x, y whole numbers, z not
+              dict(Nx=7, Ny=8, Nz=9, xmin=np.int64(-3), ymin=np.int32(-4), zmin=-4, dx=np.int64(1), dy=1, dz=np.int64(1)),
+              dict(Nx=14, Ny=15, Nz=16, xmin=-7, ymin=0, zmin=-2, dx=1, dy=1, dz=1)]
+    for par in combos:
+        for kw in (dict(), dict(boundary='periodic'), dict(fd_order=6)):
+            n += 1
+            fpar = {k: (float(v) if not k.startswith('N') else int(v)) for k, v in par.items()}
+            try:
+                a = aurel.FiniteDifference(dict(par), verbose=False, **kw)
+                b = aurel.FiniteDifference(fpar, verbose=False, **kw)
+            except Exception as e:
+                bad.append(f'{par} {kw}: constructor raised {type(e).__name__}: {e}')
+                continue
+            items, raised = {}, {}
+            for obj, tag in ((a, 0), (b, 1)):
+                d = {k: v for k, v in vars(obj).items() if isinstance(v, (np.ndarray, int, float, np.number, tuple, list))}
+                calls = {'cartesian_to_spherical(x,y,z)': lambda o_: o_.cartesian_to_spherical(o_.x, o_.y, o_.z),
+                         'spherical_to_cartesian(r,theta,phi) of the grid': lambda o_: o_.spherical_to_cartesian(*o_.cartesian_to_spherical(o_.x, o_.y, o_.z)),
+                         'd3x(x*y)': lambda o_: o_.d3x(o_.x * o_.y), 'd3z(z*z)': lambda o_: o_.d3z(o_.z * o_.z)}
+                for cn, cf in calls.items():
+                    try:
+                        d[cn] = cf(obj)
+                    except Exception as e:
+                        # a grid too small for the stencil raises for both spellings alike: compared as an outcome
+                        raised[(tag, cn)] = type(e).__name__
+                items[tag] = d
+            for cn in calls:
+                if raised.get((0, cn)) != raised.get((1, cn)):
+                    bad.append(f'parameters {par} {kw}: {cn} {"raises " + raised[(0, cn)] if (0, cn) in raised else "returns"} with ints but '
+                               f'{"raises " + raised[(1, cn)] if (1, cn) in raised else "returns"} with floats')
+            for k in sorted(set(items[0]) & set(items[1])):
+                try:
+                    va, vb = np.asarray(items[0][k], dtype=float), np.asarray(items[1][k], dtype=float)
+                except (ValueError, TypeError):
+                    continue
+                if va.shape != vb.shape or not np.allclose(va, vb, rtol=1e-12, atol=1e-12, equal_nan=True):
+                    err = '' if va.shape != vb.shape else f' (max |difference| {np.nanmax(np.abs(va - vb)):.3g})'
+                    bad.append(f'parameters {par} {kw}: {k} differs from the same grid described with floats{err}')
+            if set(items[0]) != set(items[1]):
+                bad.append(f'parameters {par} {kw}: attributes {sorted(set(items[0]) ^ set(items[1]))} exist for only one of the two spellings')
+    return bad, n
+
+
+def int_parameter_obligation(R):
+    t0 = time.time()
+    bad, n = int_parameter_cases()
+    R.bounded.append(dict(function='aurel.finitedifference.FiniteDifference (whole-number parameters)', bound=f'{n} grids: 6 parameter sets x 3 option sets, int vs float spelling'))
+    R.ob('fd.*:whole-number parameters written as int describe the same grid as written as float (every array attribute, spherical coordinates, round trip, derivatives)',
+         '__init__', 'refuted' if bad else 'bounded-ok', 'bounded-native', time.time() - t0, '; '.join(bad[:4]), bad[:6] or None, bounded=f'{n} grids',
+         replay=lambda o: (lambda b: (bool(b[0]), '; '.join(b[0][:4]) or 'no difference'))(int_parameter_cases()))
+
+
 def native_grid_replay(o=None):
     """replay on the real class: parameter families incl. spacings whose multiples are not representable"""
     import numpy as np
@@ -410,6 +472,7 @@ def run(R):
     R.trust('numpy contract: len(np.arange(N)) == N and np.arange(N)[i] == i for integer N >= 0; meshgrid(indexing="ij") broadcasts axis n of the n-th argument')
     R.notes.append('x_i = min + i*d is proved over the reals (A1); in binary64 the stored value is the correctly rounded fl(min + fl(i*d)), a deviation of at most 1 ulp each, which is reported here and not proved')
     init_obligations(R)
+    int_parameter_obligation(R)
     roundtrip_obligations(R)
     cutoff_obligations(R)
     consumer_obligations(R)
